@@ -66,10 +66,18 @@ class Box:
         new_start_coord = np.subtract(new_start_coord, concat_offsets)
         new_end_coord = np.subtract(new_end_coord, concat_offsets)
 
+        # The read offset of a fused slice is an IFM coordinate. Where strides and skirt turn the OFM coordinate into an
+        # IFM coordinate (height and width) it is added after that scaling and the operator's rows are those of the
+        # slice (as its columns already are); elsewhere the two coordinates coincide.
+        scaled_axes = (-3, -2) if (strides is not None and skirt is not None) else ()
         if split_offset is not None:
             for idx in range(len(split_offset)):
+                if idx - len(split_offset) in scaled_axes:
+                    continue
                 new_start_coord[idx] += split_offset[idx]
                 new_end_coord[idx] += split_offset[idx]
+            if scaled_axes and not (op_type is not None and op_type.is_binary_elementwise_op()):
+                ifm_shape = ifm_shape.with_height(split_shape[-3])
 
         if npu_block_type in (NpuBlockType.ConvolutionMxN, NpuBlockType.VectorProduct, NpuBlockType.ReduceSum):
             # these types of operations do a "dot product" or sum over the entire IFM
@@ -99,8 +107,10 @@ class Box:
                     new_start_coord[-2] = max(new_start_coord[-2] * stride - skirt[1], 0)
                     new_end_coord[-2] = min(new_end_coord[-2] * stride + skirt[3], ifm_shape.width)
                 else:
-                    new_start_coord[-2] = max(new_start_coord[-2] * stride - skirt[1], split_offset[-2])
-                    new_end_coord[-2] = min(new_end_coord[-2] * stride + skirt[3], split_offset[-2] + split_shape[-2])
+                    new_start_coord[-2] = max(new_start_coord[-2] * stride - skirt[1] + split_offset[-2], split_offset[-2])
+                    new_end_coord[-2] = min(
+                        new_end_coord[-2] * stride + skirt[3] + split_offset[-2], split_offset[-2] + split_shape[-2]
+                    )
 
             if len(new_start_coord) >= 3:
                 stride = strides[1]
@@ -128,6 +138,10 @@ class Box:
                 new_start_coord[-3] = max(new_start_coord[-3] // upscaling_factor, 0)
                 new_end_coord[-3] = new_end_coord[-3] * stride + skirt[2] + (skirt[2] % upscaling_factor)
                 new_end_coord[-3] = max(min(new_end_coord[-3] // upscaling_factor, ifm_shape.height), 1)
+                if split_offset is not None:
+                    # from rows of the slice to rows of the tensor
+                    new_start_coord[-3] += split_offset[-3]
+                    new_end_coord[-3] += split_offset[-3]
 
         # Wrap the IFMs of broadcasted binary elementwise ops
         # at the limits of the non-broadcasted volumes
